@@ -377,8 +377,10 @@ def main():
         fams = []
         for c in cases:
             sibs = siblings.derive(rng, c, alts, k) if rng.random() < p else []
-            for pos, _ in sibs:
+            for pos, s_ in sibs:
                 ck.count("sibling:%s:%s" % (name, pos))
+                if isinstance(s_, dict):
+                    s_["history_field"] = pos
             fams.append([c] + [s_ for _, s_ in sibs])
         return fams
 
@@ -770,8 +772,10 @@ def main():
                 reg_fail_all.append(v)
                 if stats["reg_fail"] <= 4:
                     op = batch[oi]
-                    ck.violation("Lean Spec (%s) rejects the SHRAM registers the generator emitted (%s) for offered block config h,w,d=%s"
-                                 % (v, where, cfg), {"operation": op, "accelerator": G["accs"][op["acc"]].value,
+                    hist = "" if not op.get("history_base") else (" - HISTORY: generated in the same process right after an operation that "
+                                                                  "differs only in field '%s'" % op.get("history_field"))
+                    ck.violation("Lean Spec (%s) rejects the SHRAM registers the generator emitted (%s) for offered block config h,w,d=%s%s"
+                                 % (v, where, cfg, hist), {"operation": op, "accelerator": G["accs"][op["acc"]].value,
                                                     "block_config_hwd": cfg, "emitted": s_, "spec_verdict": v, "how": where})
         # offered configurations the generator refuses: the verdict (and its explanation) is Lean's
         for (oi, ci, g), v in zip(verdict_ref, verdict_m):
